@@ -321,9 +321,17 @@ func (f *File) Seek(offset int64, whence int) (n int64, err error) {
 	return
 }
 
+// Largest size of a write buffer.
+const maxWriteBufferSize = 1 << 20
+
 func (f *File) SetWriteBuffer(mode string, size int) error {
 	if size < 0 {
 		return errInvalidBufferSize
+	}
+	if size > maxWriteBufferSize {
+		// The size is only a hint, do not allocate more than a reasonable
+		// amount on the program's request.
+		size = maxWriteBufferSize
 	}
 	f.Flush()
 	switch mode {
